@@ -76,7 +76,17 @@ def gen_case(rng):
     for name, tid in extras:
         base, k = extra_type(tid)
         ex[name] = (tid, base, k, [[pattern(rng, base) for _ in range(k)] for _ in range(n)])
-    return dict(minor=minor, fmt=fmt, n=n, fields=fields, subs=subs, extras=ex)
+    alpha = "ABCDEFGHIJKLMNOPQRSTUVWXYZabcdefghijklmnopqrstuvwxyz0123456789 _-./"
+
+    def text(maxlen):
+        ln = rng.choice([0, 1, maxlen - 1, maxlen, maxlen, rng.randrange(0, maxlen + 1)])
+        return "".join(rng.choice(alpha) for _ in range(ln)).rstrip(" ") if ln else ""
+    hdr = dict(sysid=text(32), soft=text(32), source_id=rng.choice([0, 1, 65535, rng.randrange(65536)]),
+               guid=bytes(rng.getrandbits(8) for _ in range(16)),
+               scales=[rng.choice([0.01, 0.001, 0.5, 1.0, 1e-7, 2.5]) for _ in range(3)],
+               offsets=[rng.choice([0.0, 1000.0, -12.25, 1e6, -0.5]) for _ in range(3)],
+               date=(rng.choice([1990, 2000, 2024, 2023]), rng.choice([1, 59, 60, 365])))
+    return dict(minor=minor, fmt=fmt, n=n, fields=fields, subs=subs, extras=ex, hdr=hdr)
 
 
 def expected_record_patterns(case, i):
@@ -111,6 +121,17 @@ def direction1(ck, case):
     if case["extras"]:
         las.add_extra_dims([ExtraBytesParams(name=nm, type=(base if k == 1 else f"{k}{base}"))
                             for nm, (tid, base, k, vals) in case["extras"].items()])
+    import datetime
+    import uuid
+    hd = case["hdr"]
+    h = las.header
+    h.system_identifier = hd["sysid"]
+    h.generating_software = hd["soft"]
+    h.file_source_id = hd["source_id"]
+    h.uuid = uuid.UUID(bytes_le=hd["guid"])
+    h.scales = np.array(hd["scales"])
+    h.offsets = np.array(hd["offsets"])
+    h.creation_date = datetime.date(hd["date"][0], 1, 1) + datetime.timedelta(days=hd["date"][1] - 1)
     n = case["n"]
     las.points = laspy.ScaleAwarePointRecord.zeros(n, header=las.header)
     for name, (t, pats) in case["fields"].items():
@@ -120,10 +141,29 @@ def direction1(ck, case):
     for name, (tid, base, k, vals) in case["extras"].items():
         arr = to_array([p for row in vals for p in row], base)
         las[name] = arr if k == 1 else arr.reshape(n, k)
-    las.header.creation_date = __import__("datetime").date(2024, 2, 29)
     buf = io.BytesIO()
     las.write(buf)
     return buf.getvalue()
+
+
+def spec_header_fields(data):
+    """the public header block read at the ASPRS byte offsets (independent of laspy)"""
+    import struct as _st
+    return dict(signature=data[0:4], source_id=int.from_bytes(data[4:6], "little"), guid=bytes(data[8:24]),
+                major=data[24], sysid=bytes(data[26:58]), soft=bytes(data[58:90]),
+                doy=int.from_bytes(data[90:92], "little"), year=int.from_bytes(data[92:94], "little"),
+                scales=list(_st.unpack("<3d", data[131:155])), offsets=list(_st.unpack("<3d", data[155:179])))
+
+
+def check_header_layout(ck, case, data, inp):
+    hd = case["hdr"]
+    f = spec_header_fields(data)
+    want = dict(signature=b"LASF", source_id=hd["source_id"], guid=hd["guid"], major=1,
+                sysid=hd["sysid"].encode().ljust(32, b"\0"), soft=hd["soft"].encode().ljust(32, b"\0"),
+                doy=hd["date"][1], year=hd["date"][0], scales=hd["scales"], offsets=hd["offsets"])
+    for k, v in want.items():
+        if f[k] != v:
+            ck.fail(f"public header block: {k} at its ASPRS offset reads {f[k]!r:.80}, assigned {v!r:.80}", dict(inp, header_field=k))
 
 
 def py_spec_decode(case, data):
@@ -267,6 +307,7 @@ def run(ck):
             ck.fail(f"laspy could not assign/write the case: {type(e).__name__}: {e}", inp)
             continue
         dec = py_spec_decode(case, data)
+        check_header_layout(ck, case, data, inp)
         exp_rows = [expected_record_patterns(case, i) for i in range(case["n"])]
         if dec["fmt"] != case["fmt"] or dec["minor"] != case["minor"] or dec["count"] != case["n"]:
             ck.fail(f"spec decoder reads format {dec['fmt']} version 1.{dec['minor']} count {dec['count']}", inp)
